@@ -503,7 +503,7 @@ class GeminiServerProtocol(asyncio.Protocol):
             if not (status_text.isascii() and status_text.isdigit()):
                 raise ValueError("no status")
             response = GeminiResponse(status=int(status_text), meta=meta)
-        except ValueError:
+        except (ValueError, TypeError, AttributeError):
             self._send_error_response(
                 StatusCode.TEMPORARY_FAILURE, "Request rejected"
             )
